@@ -133,6 +133,78 @@ def jacRevOmp (t : List (Stmt R)) (c : JacCfg) (indep dep : List Nat) (sched : L
   sched.foldl (fun out ib =>
     revBlock t c indep dep (c.W * ib) (ompBlockSize c.W m nb ib) (ompBlockSize c.W m nb ib) out) out
 
+/-! ### Law-free layer (theorems `C02_…_lawfree`, `C13_…_lawfree`; Float correspondence)
+
+Everything above runs over any carrier with `+ * 0 1`; only `revStep` needs more, because it transcribes
+`if (a != 0.0)` as propositional equality.  On `double` that test is a *comparison* (`-0.0 == 0.0`, `NaN != 0.0`), so the
+definitions below take it as one more operation `nz : R → Bool` of the carrier; nothing is assumed about it.
+`revStep = revStepZ (fun a => decide (a ≠ 0))` (lemma `revStepZ_decide`).
+
+The reverse Jacobian sweeps of jacobian.cpp do NOT test each lane on its own: the code is
+
+    n_non_zero = 0;
+    for (i < block_size) { a[i] = b[statement.index][i]; b[statement.index][i] = 0.0; if (a[i] != 0.0) n_non_zero = 1; }
+    if (n_non_zero) for (iop) for (i < block_size) b[index_[iop]][i] += multiplier_[iop]*a[i];
+
+(`#if MULTIPASS_SIZE > MULTIPASS_SIZE_ZERO_CHECK` compares two identifiers that are not preprocessor macros —
+`MULTIPASS_SIZE` is a `static const int`, the macro of base.h is called `ADEPT_MULTIPASS_SIZE_ZERO_CHECK` — so it reads
+`0 > 0` and the per-lane `i_non_zero` variant is never compiled, whatever the block width.)  A lane whose own `a[i]` is
+zero therefore still executes `b[…][i] += multiplier*0` when another lane of the block is non-zero.  Over a ring that is
+invisible (`kernelRev`, lane by lane, is the specification the ring theorems use); law-free it is not, so the transcription
+with the block-wide flag is `kernelRevB`, and `jacRevSerialB` / `jacRevOmpB` are the routines built on it.  The order of
+the two inner loops (operations outside, lanes inside) is immaterial operation for operation: different lanes are different
+memory cells and every cell sees its updates in operation order either way. -/
+
+/-- one statement of `compute_adjoint`; `nz a` is the test `a != 0.0` -/
+def revStepZ (nz : R → Bool) (s : Stmt R) (g : Vec R) : Vec R :=
+  let a := rd g s.lhs
+  let g' := g.set s.lhs 0
+  if nz a then scatter s.ops a g' else g'
+
+/-- `Stack::compute_adjoint` with the zero test as an operation -/
+def revZ (nz : R → Bool) (t : List (Stmt R)) (g : Vec R) : Vec R := t.foldr (fun s g => revStepZ nz s g) g
+
+/-- the forward kernels statement by statement, as the C++ loops run (all lanes `< nl` do statement 1, then statement 2, …);
+    `kernelFwd` is the same thing lane by lane (lemma `kernelFwdS_eq`) -/
+def kernelFwdS (t : List (Stmt R)) (nl : Nat) (b : Buf R) : Buf R :=
+  t.foldl (fun b s => b.mapIdx (fun i lane => if i < nl then fwdStep s lane else lane)) b
+
+/-- the flag `n_non_zero` of the reverse Jacobian sweeps: is `a[i] != 0.0` for some lane `i < nl` -/
+def anyNz (nz : R → Bool) (b : Buf R) (nl lhs : Nat) : Bool :=
+  (List.range nl).any (fun i => nz (rd (b.getD i []) lhs))
+
+/-- what one lane does for one statement once the block-wide flag `go` is known -/
+def revLaneB (go : Bool) (s : Stmt R) (lane : Vec R) : Vec R :=
+  if go then scatter s.ops (rd lane s.lhs) (lane.set s.lhs 0) else lane.set s.lhs 0
+
+/-- one statement of the reverse Jacobian sweep on lanes `< nl` -/
+def revStmtB (nz : R → Bool) (s : Stmt R) (nl : Nat) (b : Buf R) : Buf R :=
+  let go := anyNz nz b nl s.lhs
+  b.mapIdx (fun i lane => if i < nl then revLaneB go s lane else lane)
+
+/-- the reverse sweep of `jacobian_reverse(_openmp)` on lanes `< nl`, last statement first -/
+def kernelRevB (nz : R → Bool) (t : List (Stmt R)) (nl : Nat) (b : Buf R) : Buf R :=
+  t.foldr (fun s b => revStmtB nz s nl b) b
+
+def revBlockB (nz : R → Bool) (t : List (Stmt R)) (c : JacCfg) (indep dep : List Nat) (first size nl : Nat)
+    (out : Out R) : Out R :=
+  let b := kernelRevB nz t nl (seedBlock (zeroBuf c.W c.maxGrad) dep first size)
+  copyOutRev out b indep first size c.depOff c.indepOff
+
+/-- serial `Stack::jacobian_reverse` as compiled: `m / W` full blocks, then one block of `m % W` lanes -/
+def jacRevSerialB (nz : R → Bool) (t : List (Stmt R)) (c : JacCfg) (indep dep : List Nat) (out : Out R) : Out R :=
+  let m := dep.length
+  let out := (List.range (m / c.W)).foldl (fun out ib => revBlockB nz t c indep dep (c.W * ib) c.W c.W out) out
+  if m % c.W > 0 then revBlockB nz t c indep dep (c.W * (m / c.W)) (m % c.W) (m % c.W) out else out
+
+/-- `jacobian_reverse_openmp` as compiled, blocks executed in the order `sched` -/
+def jacRevOmpB (nz : R → Bool) (t : List (Stmt R)) (c : JacCfg) (indep dep : List Nat) (sched : List Nat)
+    (out : Out R) : Out R :=
+  let m := dep.length
+  let nb := (m + c.W - 1) / c.W
+  sched.foldl (fun out ib =>
+    revBlockB nz t c indep dep (c.W * ib) (ompBlockSize c.W m nb ib) (ompBlockSize c.W m nb ib) out) out
+
 /-- the dispatch test of `jacobian_forward` / `jacobian_reverse` -/
 def useOmp (haveOmp disabled : Bool) (count W maxThreads : Nat) : Bool :=
   haveOmp && !disabled && decide (count > W) && decide (maxThreads > 1)
